@@ -5,6 +5,10 @@ TECH = "contract-based deductive verification: pyvc VC generation from the real 
 TRUST = ("home-made VC generator (Python subset semantics of DESIGN section 2), assumed external contracts listed in the evidence "
          "file's trusted_base, solver soundness; see evidence.assumptions")
 CLAIMED = {
+    "C04": ("proof", "Safety obligations (None dereference, missing attribute for the dynamic class, index/key out of range, int() on an unparsable or over-long string, "
+            "unpacking, pop on empty, callee raise-sets) generated for every operation of every function under a no-raise contract -- the extraction helpers and constructors of "
+            "find.py/helpers.py/models.py, all of resolve.py, filter_citations, annotate_citations and SpanUpdater -- and discharged for all inputs satisfying the stated class "
+            "invariants. The collecting loop of get_citations and the tokenizer bodies are bounded (stand-in over three tokenizers x modes) only.", "6/C04"),
     "C19": ("proof", "Pin-cited reference citations: loop invariant of extract_pincited_reference_citations (every reference starts at or after the end of the full citation's "
             "span; its span/full-span/token offsets are equal and valid in the plain text), discharged for all texts; non-interference as a frame argument: syntactic read-set "
             "obligations on the real AST (markup flows only into Document and the reference extractors, which construct only references) plus filter_citations' "
